@@ -210,9 +210,11 @@ FamilyK(p, types) ==
 (* ======================================================================== *)
 BProg(recv, ptr, ifc, how, nI, nC, coloc, mode) ==
   LET bound == IF ptr THEN "*C" ELSE "C"
-      I     == CASE ifc = "plain" -> "I1" [] ifc = "embed" -> "I2" [] OTHER -> "I3"
+      I     == CASE ifc = "plain" -> "I1" [] ifc = "embed" -> "I2" [] ifc = "embedonly-ok" -> "I4" [] ifc = "embedonly-missing" -> "I5" [] OTHER -> "I3"
       atoms == << Tok("T5"), Tok("T6"), Tok("T7"), Tok("T8"), Tok("T9"),
-                  Iface("I1", "a", <<>>), Iface("I2", "a", <<"I1">>), Iface("I3", "b", <<>>),
+                  Iface("I1", "a", <<>>), Iface("I2", "a", <<"I1">>), Iface("I3", "b", <<>>), Iface("I6", "a", <<>>),
+                  MkAtom("I4", "iface", "a", <<>>, <<"I1", "I2">>, <<>>, "noown"),      \* only embedded interfaces, no method of its own
+                  MkAtom("I5", "iface", "a", <<>>, <<"I1", "I6">>, <<>>, "noown"),      \* ... one of which C does not implement
                   MkAtom("C", "struct", "a", <<Fld("X", "T8")>>, <<>>,
                          <<Impl("I1", recv), Impl("I2", recv), Impl("I3", recv)>>, ""),
                   StructT("S2", "a", <<Fld("F", bound)>>) >>
@@ -246,13 +248,18 @@ BProg(recv, ptr, ifc, how, nI, nC, coloc, mode) ==
       key == "B/" \o recv \o "/" \o bound \o "/" \o I \o "/" \o how \o "/i" \o ToString(nI) \o "c" \o ToString(nC) \o "/" \o coloc \o "/" \o mode
   IN Prog(key, "B", atoms, leaves, sets,
           <<Inj("Inject", IF how = "param" THEN <<Par("c0", bound)>> ELSE <<>>, "T9", FALSE, FALSE, items)>>)
+\* the same program written with a dot-imported wire package (Build, Bind, NewSet, ... unqualified)
+BDot(q) == [q EXCEPT !.key = q.key \o "/dotwire"] @@ [opts |-> [dotwire |-> TRUE]]
 FamilyB(p) ==
-  \E recv \in {"value", "pointer"} : \E ptr \in BOOLEAN : \E ifc \in {"plain", "embed", "foreign"} :
-  \E how \in {"func", "struct", "value", "param", "field"} : \E nI \in {1, 2} : \E nC \in {0, 1} :
-  \E coloc \in {"same", "inner", "lacks", "outer"} : \E mode \in {"ok", "nobind", "self", "unrelated"} :
-    /\ mode # "ok" => (coloc = "same" /\ nI = 1 /\ ifc = "plain")
-    /\ how = "param" => coloc \in {"same", "lacks"}
-    /\ p = BProg(recv, ptr, ifc, how, nI, nC, coloc, mode)
+  \/ \E recv \in {"value", "pointer"} : \E ptr \in BOOLEAN : \E ifc \in {"plain", "embed", "foreign"} :
+       \E how \in {"func", "struct", "value", "param", "field"} : \E nI \in {1, 2} : \E nC \in {0, 1} :
+         \E coloc \in {"same", "inner", "lacks", "outer"} : \E mode \in {"ok", "nobind", "self", "unrelated"} :
+           /\ mode # "ok" => (coloc = "same" /\ nI = 1 /\ ifc = "plain")
+           /\ how = "param" => coloc \in {"same", "lacks"}
+           /\ \/ p = BProg(recv, ptr, ifc, how, nI, nC, coloc, mode)
+              \/ how = "func" /\ nI = 1 /\ nC = 0 /\ coloc \in {"same", "inner"} /\ p = BDot(BProg(recv, ptr, ifc, how, nI, nC, coloc, mode))
+  \/ \E recv \in {"value", "pointer"} : \E ptr \in BOOLEAN : \E ifc \in {"embedonly-ok", "embedonly-missing"} :
+       p = BProg(recv, ptr, ifc, "func", 1, 0, "same", "ok")
 
 (* ======================================================================== *)
 (* Family S (struct and field providers).                                   *)
@@ -654,6 +661,19 @@ XProg(v) ==
          mk(<<XF("P2", <<>>, "T2"), XF("P3", <<>>, "T3"), XF("P1", <<"T2", "T3">>, "T1")>>,
             <<[SetD("SetA", "a", <<ItL(1)>>) EXCEPT !.grp = "g"], [SetD("SetB", "a", <<ItL(2)>>) EXCEPT !.grp = "g"]>>,
             <<XInj("Inject", <<>>, "T1", <<ItS(2), ItL(3)>>, 1)>>)
+    [] v = "two-fieldsof-second-unused" ->      \* two FieldsOf items, the second contributes nothing
+         mk(<<FieldsL("FO1", "S2", <<"F">>), FieldsL("FO2", "S2", <<"G">>), XF("PS2", <<>>, "S2"), XF("Q", <<"T2">>, "T1")>>, <<>>,
+            <<XInj("Inject", <<>>, "T1", <<ItL(1), ItL(2), ItL(3), ItL(4)>>, 1)>>)
+    [] v = "missing-under-fieldsof-parent" ->   \* the parent struct of a needed field cannot be built: one of its inputs has no provider
+         mk(<<FieldsL("FO1", "S2", <<"F">>), XF("PS2", <<"T8">>, "S2"), XF("Q", <<"T2">>, "T1")>>, <<>>,
+            <<XInj("Inject", <<>>, "T1", <<ItL(1), ItL(2), ItL(3)>>, 1)>>)
+    [] v = "set-used-by-first-injector-only" -> \* a named set genuinely used by one injector is superfluous in the next one
+         mk(<<XF("P2", <<>>, "T2"), XF("P1", <<"T2">>, "T1"), XF("P3", <<>>, "T3")>>, <<SetD("SetA", "a", <<ItL(1)>>)>>,
+            <<XInj("InjectA", <<>>, "T1", <<ItS(1), ItL(2)>>, 1), XInj("InjectB", <<>>, "T3", <<ItS(1), ItL(3)>>, 1)>>)
+    [] v = "struct-fields-from-params-crossed" -> \* struct fields fed by injector parameters whose positions differ from the fields'
+         mk(<<StructL("St", "S2", <<"F", "G">>, FALSE)>>, <<>>,
+            <<XInj("Inject", <<Par("g", "T3"), Par("unrelated", "T9"), Par("f", "T2")>>, "S2", <<ItL(1)>>, 1),
+              XInj("InjectP", <<Par("f", "T2"), Par("g", "T3")>>, "*S2", <<ItL(1)>>, 1)>>)
     [] v = "same-set-twice-direct" ->          \* one set listed twice in the same call
          mk(<<XF("P2", <<>>, "T2"), XF("P1", <<"T2">>, "T1")>>, <<SetD("SetA", "a", <<ItL(1)>>)>>,
             <<XInj("Inject", <<>>, "T1", <<ItS(1), ItL(2), ItS(1)>>, 1)>>)
@@ -666,7 +686,8 @@ XVariants == {"star-foreign-tag-missing", "star-foreign-tag-ok", "two-files-firs
               "foreign-struct-star", "foreign-struct-unexported-name", "foreign-struct-exported-name", "variadic-err-provider",
               "same-named-sets-two-packages", "two-unnamed-values", "same-name-packages", "two-fieldsof-items", "bind-after-concrete",
               "iface-result-bound-to-value-struct", "alias-satisfies", "defined-type-does-not-satisfy", "pointer-does-not-satisfy-value",
-              "value-does-not-satisfy-pointer", "multi-name-var-sets-missing"}
+              "value-does-not-satisfy-pointer", "multi-name-var-sets-missing", "two-fieldsof-second-unused", "missing-under-fieldsof-parent",
+              "set-used-by-first-injector-only", "struct-fields-from-params-crossed"}
 FamilyX(p, vs) == \E v \in vs : p = XProg(v)
 
 (* ======================================================================== *)
